@@ -383,6 +383,9 @@ func (r *Resolver) onMap(g *Scope, name string, t *parser.Type, v *parser.ConstV
 			if err != nil {
 				return "", err
 			}
+			if t.KeyType.Category == parser.Category_Binary && mcv.Key.Type == parser.ConstType_ConstIdentifier {
+				key = "string(" + key + ")" // a binary constant is a []byte, a binary map key is a string
+			}
 			valName := "value of " + name
 			val, err := r.resolveConst(g, valName, t.ValueType, mcv.Value)
 			if err != nil {
